@@ -250,7 +250,9 @@ class SimQueue(_Handle):
         c = self._core = _Core(s, "queue")
         c.maxsize = maxsize
         c.pipe = deque()          # pickled items visible to getters
-        c.bufs = {}               # pid -> deque of pickled items still in that process' feeder buffer
+        c.bufs = {}               # pid -> deque of OBJECTS still in that process' feeder buffer: like CPython's feeder thread the
+                                  # simulator pickles an item when it moves it to the pipe, not when put() is called - so a producer
+                                  # that changes an object after having put it changes what arrives
         c.count = 0               # put minus got (what qsize() reports)
         c.rlock = None            # task holding the reader lock
         c.pipe_cap = s.user.get("pipe_cap")      # None = unbounded pipe
@@ -278,10 +280,20 @@ class SimQueue(_Handle):
             return bool(c.bufs.get(pid)) and SimQueue._pipe_room(c)
 
         def fire():
-            c.pipe.append(c.bufs[pid].popleft())
+            SimQueue._feed(s, c, c.bufs[pid].popleft())
             s.count("feeder_flush")
 
         s.add_vaction(key, enabled, fire)
+
+    @staticmethod
+    def _feed(s, c, obj):
+        """What the feeder thread does with one buffered object: pickle it now and write it to the pipe.  An object that cannot be
+        pickled is dropped (CPython prints the traceback from the feeder thread and goes on)."""
+        try:
+            c.pipe.append(pickle.dumps(obj))
+        except Exception:
+            c.count -= 1
+            s.count("feeder_pickle_error_item_dropped")
 
     @staticmethod
     def flush_pid(s, pid):
@@ -296,7 +308,7 @@ class SimQueue(_Handle):
                     s.count("exit_blocked_on_full_pipe")
                     s.block(lambda core=core: SimQueue._pipe_room(core), f"exit flush {core.name}")
                     continue        # the feeder may have flushed meanwhile: re-check the buffer
-                core.pipe.append(buf.popleft())
+                SimQueue._feed(s, core, buf.popleft())
 
     # -- API
     def put(self, obj, block=True, timeout=None):
@@ -314,19 +326,20 @@ class SimQueue(_Handle):
                     raise _queue.Full()
                 s.count("put_blocked_on_full_queue")
             s.block(lambda: c.count < c.maxsize, f"put {c.name} (full)")
-        data = pickle.dumps(obj)
         c.count += 1
         c.n_put += 1
         buf = c.bufs.get(me.pid)
         if c.delayed or buf or not self._pipe_room(c):
             if buf is None:
                 buf = c.bufs[me.pid] = deque()
-            buf.append(data)               # per-producer FIFO
+            buf.append(obj)                # per-producer FIFO; pickled by the feeder (see _feed)
             self._ensure_flusher(s, c, me.pid)
             s.count("put_buffered")
+            s.log("q.put", c.name, "buffered")
         else:
+            data = pickle.dumps(obj)       # (a feeder that runs at once; a put of something unpicklable raises here, in the producer)
             c.pipe.append(data)
-        s.log("q.put", c.name, len(data))
+            s.log("q.put", c.name, len(data))
         s.yield_("queue.put")
 
     def put_nowait(self, obj):
@@ -393,6 +406,9 @@ class SimQueue(_Handle):
 
 
 # ----------------------------------------------------------------------------- Pipe / Connection
+PIPE_CAPACITY = 65536
+
+
 class SimConnection(_Handle):
     _kind = "conn"
 
@@ -424,10 +440,17 @@ class SimConnection(_Handle):
         self._check()
         if not self._writable:
             raise OSError("connection is read-only")
-        data = pickle.dumps(obj)
-        self._core.buf.append(data)
-        s.log("conn.send", self._core.name, len(data))
-        s.yield_("conn.send")
+        data = pickle.dumps(obj)           # (an object that cannot be pickled raises here, in the sender - as in CPython)
+        c = self._core
+        c.buf.append(data)
+        s.log("conn.send", c.name, len(data))
+        if len(data) > PIPE_CAPACITY:
+            # an OS pipe holds 64 KiB: a larger message is written piece by piece while the other side reads, so send() only
+            # returns once the receiver has taken the message (poll() already sees the first bytes)
+            s.count("conn_send_blocked_on_full_pipe")
+            s.block(lambda: all(d is not data for d in c.buf), f"send {c.name} (pipe full)")
+        else:
+            s.yield_("conn.send")
 
     def poll(self, timeout=0.0):
         s = _sim()
@@ -435,6 +458,8 @@ class SimConnection(_Handle):
             return False
         s.checkpoint()
         self._check()
+        if not self._core.buf and timeout:
+            s.sleep(timeout)
         return bool(self._core.buf)
 
     def recv(self):
@@ -447,7 +472,7 @@ class SimConnection(_Handle):
         s.block(lambda: bool(c.buf), f"recv {c.name}")
         data = c.buf.popleft()
         s.log("conn.recv", c.name, len(data))
-        return pickle.loads(data)
+        return pickle.loads(data)          # (an object that cannot be rebuilt raises here, in the receiver)
 
     def close(self):
         self._closed = True
